@@ -94,6 +94,7 @@ func GenShardScript(t *rapid.T, unhealthyPct int, label string) ShardSpec {
 		return s
 	}
 	s.Status2Fail = rapid.IntRange(0, 2).Draw(t, label+"-status2") == 0
+	s.FailShape = rapid.SampledFrom([]string{"", "503-error", "500-success", "500-success", "200-error", "200-garbage", "404-empty"}).Draw(t, label+"-failShape")
 	switch rapid.IntRange(0, 8).Draw(t, label+"-kind") {
 	case 0:
 		s.Ready = false
@@ -297,5 +298,6 @@ func Gen(t *rapid.T, b Bias) *Scenario {
 		sc.Stop = "stopped by admin"
 	}
 	sc.RandSeed = int64(rapid.IntRange(1, 1<<30).Draw(t, "randSeed"))
+	sc.Wire = pct(t, 35, "wire")
 	return sc
 }
